@@ -23,7 +23,7 @@ COMPONENTS = {
 }
 
 
-def classify(hist, mismatch):
+def classify(hist, mismatch, model_disagrees=False):
     """Key of a failing (spec-mismatching) history: used to match known findings.
     Three defect classes were found while building this check: pool:stride-unaligned (F13) and
     fixedpool:ctor-panics-at-max (F16) are repaired in /repo by fix: commits and not expected
@@ -38,13 +38,23 @@ def classify(hist, mismatch):
                 return "pool:stride-unaligned"
         if len(t) >= 2 and t[1] == "fixed" and "spec=ctor-returns" in mismatch:
             return "fixedpool:ctor-panics-at-max"
-        if len(t) >= 8 and t[1] == "dyn" and "spec=segment0-holds" in mismatch:
-            # known finding F18 -- ONLY: dynamic segment, port-style layout (alignment divides
-            # size), chunk alignment not satisfied by the payload start address, and exactly one
-            # bucket fewer than requested (what c15_dyn_segment_enough_partial allows)
+        if len(t) >= 8 and t[1] == "dyn" and "spec=segment0-holds" in mismatch and not model_disagrees:
+            # known finding F18.  Keyed ONLY when the preconditions of the recorded defect hold
+            # verifiably in this very case (never on the symptom "a bucket is missing" alone):
+            #   * dynamic segment over the real posix / process-local shared memory,
+            #   * port-style chunk layout: alignment divides size,
+            #   * chunk alignment >= 16,
+            #   * the payload start measured by the harness is 8-aligned (the recorded cause) and
+            #     NOT a multiple of the chunk alignment,
+            #   * the first segment holds exactly the count the missing slack predicts:
+            #     (size*n - padding) / size with padding = (-start) mod alignment, which is n-1,
+            #   * the concrete model (which has exactly this arithmetic) agrees on this case.
+            # Anything else with the same symptom is an unkeyed VIOLATION.
             hs, ha, n, bm = int(t[4]), int(t[5]), int(t[6]), int(t[7])
             got = int(mismatch.rsplit("impl=", 1)[1].split()[0])
-            if ha and hs % ha == 0 and bm % ha != 0 and got == n - 1:
+            pad = (-bm) % ha if ha else 0
+            if (t[2] in ("posix", "local") and ha >= 16 and hs >= 1 and hs % ha == 0 and bm % 8 == 0 and pad != 0
+                    and n >= 1 and got == (hs * n - pad) // hs and got == n - 1):
                 return "dyn:segment-lost-bucket"
         if len(t) >= 6 and t[1] == "dyn" and "impl=misaligned" in mismatch:
             hs, ha = int(t[4]), int(t[5])
@@ -113,10 +123,12 @@ def run(ctx):
     model_mm = [m for m in r["mismatch_lines"] if "kind=model" in m[2]]
     reported = set()
     n_viol_before = len(ctx.violations)
+    # cases on which the concrete model disagrees are never keyed as a known finding
+    model_cases = {(cmd, int(line.split("case=")[1].split()[0])) for lbl, cmd, line in model_mm}
     for lbl, cmd, line in spec_mm:
         case_no = int(line.split("case=")[1].split()[0])
         hist = vlib.extract_case(cmd.split(), driver, case_no)
-        key = classify(hist, line)
+        key = classify(hist, line, model_disagrees=(cmd, case_no) in model_cases)
         if key in reported:
             continue
         reported.add(key)
